@@ -310,6 +310,9 @@ func c13Trace(c *c13, g *Rng, idx int) {
 	if g.Chance(10) {
 		c.do(createLine(genAlloc, m, nn, cc, L, liqPart, vestDur)) // second plan for the same rollapp
 	}
+	if g.Chance(12) {
+		c13Chown(c, g, n, "before-start")
+	}
 	for a := 1; a < n; a++ {
 		if g.Chance(85) {
 			c.do(fmt.Sprintf("fund %d %s", a, c13Around(g, budget).AddRaw(1)))
@@ -336,9 +339,18 @@ func c13Trace(c *c13, g *Rng, idx int) {
 		if !ok {
 			return
 		}
+		own := c.ownerIdx()
 		a := g.Intn(n)
 		if g.Chance(15) {
-			a = 0
+			a = own
+		}
+		if g.Chance(2) {
+			if settled {
+				c13Chown(c, g, n, "after-settlement")
+			} else {
+				c13Chown(c, g, n, "while-trading")
+			}
+			continue
 		}
 		addr := c.actors[a]
 		remaining := p.MaxAmountToSell.Sub(p.SoldAmt)
@@ -361,9 +373,12 @@ func c13Trace(c *c13, g *Rng, idx int) {
 				}
 				c.do(fmt.Sprintf("claim %d", who))
 			case w < 45:
-				who := 0
+				who := own
 				if g.Chance(15) {
 					who = a
+				}
+				if who != own && who == 0 {
+					c.r.Hit("owner/former-owner-claims-vested")
 				}
 				c.do(fmt.Sprintf("claimv %d", who))
 			case w < 72:
@@ -387,7 +402,7 @@ func c13Trace(c *c13, g *Rng, idx int) {
 			case w < 97:
 				c.do(fmt.Sprintf("settle %s", c13Pick(g, "0", genAlloc.String())))
 			default:
-				c.do(fmt.Sprintf("enable 0"))
+				c.do(fmt.Sprintf("enable %d", own))
 			}
 			continue
 		}
@@ -421,11 +436,17 @@ func c13Trace(c *c13, g *Rng, idx int) {
 			if g.Chance(3) {
 				maxCost = math.ZeroInt()
 			}
-			if a != 0 && !started {
+			if a != own && !started {
 				c.r.Hit("gating/non-owner-before-start")
+				if a == 0 {
+					c.r.Hit("owner/former-owner-before-start")
+				}
 			}
-			if a == 0 && !started {
+			if a == own && !started {
 				c.r.Hit("gating/owner-before-start")
+				if own != 0 {
+					c.r.Hit("owner/new-owner-before-start")
+				}
 			}
 			c.do(fmt.Sprintf("buy %d %s %s", a, amt, maxCost))
 		case w < 38: // buy exact spend
@@ -489,7 +510,7 @@ func c13Trace(c *c13, g *Rng, idx int) {
 		case w < 74:
 			c.do(fmt.Sprintf("time %d", []int64{1, int64(time.Second), int64(time.Minute), int64(time.Hour), int64(2 * time.Hour)}[g.Intn(5)]))
 		case w < 80:
-			who := 0
+			who := own
 			if g.Chance(30) {
 				who = a
 			}
@@ -505,7 +526,7 @@ func c13Trace(c *c13, g *Rng, idx int) {
 		case w < 91:
 			c.do(fmt.Sprintf("claim %d", a))
 		case w < 93:
-			c.do(fmt.Sprintf("claimv %d", g.Intn(2)*a))
+			c.do(fmt.Sprintf("claimv %d", []int{own, a}[g.Intn(2)]))
 		default: // settle; more likely late in the trace
 			if s*3 < steps && g.Chance(70) {
 				c.do(fmt.Sprintf("time %d", int64(time.Minute)))
@@ -521,6 +542,27 @@ func c13Trace(c *c13, g *Rng, idx int) {
 				settled = true
 				steps += 12
 			}
+		}
+	}
+}
+
+// c13Chown: the real MsgTransferOwnership of the current rollapp: mostly owner → somebody else, sometimes
+// by a non-owner, to himself, or straight back
+func c13Chown(c *c13, g *Rng, n int, when string) {
+	own := c.ownerIdx()
+	to := (own + 1 + g.Intn(n-1)) % n
+	switch g.Intn(8) {
+	case 0:
+		c.do(fmt.Sprintf("chown %d %d", to, own)) // not the owner
+	case 1:
+		c.do(fmt.Sprintf("chown %d %d", own, own)) // same owner
+	case 2:
+		c.do(fmt.Sprintf("chown %d %d", own, to))
+		c.do(fmt.Sprintf("chown %d %d", own, to)) // the former owner once more
+		c.do(fmt.Sprintf("chown %d %d", to, own)) // and back
+	default:
+		if c.do(fmt.Sprintf("chown %d %d", own, to))[:2] == "ok" {
+			c.r.Hit("owner/changed-" + when)
 		}
 	}
 }
